@@ -126,6 +126,10 @@ def build_node(
         def class_method(*args: t.Any, **kwargs: t.Any) -> t.Any:
             return process_method(*args, **kwargs, **(dependencies_default or {}))
 
+    # The method is stored as the "process" attribute of the new class. A bound method is pickled by its function
+    # name, so the name has to match the attribute, otherwise the node cannot be sent to the process pool.
+    class_method.__name__ = 'process'
+
     class_name = class_name or f'Generic{node.__name__}'
     created_node = type(
         class_name,
